@@ -32,8 +32,13 @@ func TestVerifRelatedRace(t *testing.T) {
 		{Group: "", Version: "v1", Resource: "secrets", Kind: "Secret", Namespaced: true},
 		{Group: "", Version: "v1", Resource: "configmaps", Kind: "ConfigMap", Namespaced: true},
 	}
-	_, n := vs.Params(8)
+	seed, n := vs.Params(8)
+	out := vs.OpenOut()
+	defer out.Close()
 	for round := 0; round < n; round++ {
+		if !vs.Mine(round) {
+			continue
+		}
 		sim := vs.NewSim(defs)
 		sim.Quiet = true
 		hook := httptest.NewServer(http.HandlerFunc(func(w http.ResponseWriter, r *http.Request) {
@@ -85,7 +90,9 @@ func TestVerifRelatedRace(t *testing.T) {
 		if len(rc) != 0 {
 			t.Errorf("subscriptions left after Stop: %v", rc)
 		}
+		out.Line(vs.M{"kind": "race", "case": round, "seed": seed, "workers": 4, "leaked": len(rc)})
 		hook.Close()
+		sim.Server.CloseClientConnections()
 		sim.Close()
 	}
 }
